@@ -230,8 +230,13 @@ class Program:
 
 def _run_one(job):
     out, src, args = job
+    env = None
+    ov = os.environ.get("XZ_VERIF_OVERRIDE")
+    if ov:
+        env = dict(os.environ)
+        env["XZFACTS_REMAP"] = ov
     r = subprocess.run([XZFACTS, out, src, "--"] + args,
-                       capture_output=True, text=True)
+                       capture_output=True, text=True, env=env)
     return (src, r.returncode, r.stderr[-1000:])
 
 
@@ -247,16 +252,15 @@ def extract(targets=None, extra_flags=None, files=None, config="default",
     """
     if not os.path.exists(XZFACTS):
         raise AnalysisBroken("build/xzfacts missing: run MANIFEST.setup_cmd")
-    ov = os.environ.get("XZ_VERIF_OVERRIDE")
-    if ov and file_overrides is None:
-        # selftest only: analyse a mutated scratch copy of one source file
-        file_overrides = dict(x.split("=", 1) for x in ov.split(",") if "=" in x)
+    # selftest only: XZ_VERIF_OVERRIDE=orig=replacement makes xzfacts read the replacement's
+    # content in place of the original file (works for headers too); see _run_one
     entries = compdb.load(repo)
     if targets is None:
         targets = {"liblzma", "xz", "xzdec", "lzmadec", "lzmainfo"}
     sel = [e for e in entries if e["target"] in targets]
     if files:
-        sel = [e for e in sel if any(e["file"].endswith(x) for x in files)]
+        sel = [e for e in sel if any(e["file"].endswith(x) or (x.endswith("/") and x in e["file"])
+                                     for x in files)]
     if not sel:
         raise AnalysisBroken("no translation units selected")
     tmp = tempfile.mkdtemp(prefix="xzverif-facts-")
